@@ -184,6 +184,44 @@ func c09Child(seedStr, thoroughStr string) {
 			return ecdsaKeygenNet(rand.New(rand.NewSource(s)), 3, 1, partyKeys(rng, 3, 0, tss.S256().Params().N), 0)
 		}})
 	}
+	// deliveries released at the same instant as the recipient's Start()
+	gates := 120
+	if thorough {
+		gates = 1500
+	}
+	gprs := []pr{
+		{"eddsa-keygen-2", func(s int64) *Net { return eddsaKeygenNet(rand.New(rand.NewSource(s)), 2, 1, partyKeys(rng, 2, 0, q)) }},
+		{"eddsa-keygen-3", prs[0].build},
+		{"eddsa-signing", prs[1].build},
+		{"eddsa-resharing", prs[2].build},
+	}
+	for gi, p := range gprs {
+		bad := 0
+		first := ""
+		n := gates
+		if gi > 0 {
+			n = gates / 4
+		}
+		for k := 0; k < n; k++ {
+			net := p.build(seed*100000 + int64(k))
+			victim := k % len(net.Nodes)
+			if p.name == "eddsa-resharing" {
+				victim = len(net.Nodes) - 1 - k%3 // a new member: the old committee's first messages can all precede its Start
+			}
+			ok, detail := gatedStart(net, victim, seed*31+int64(k), k%10 == 0)
+			if !ok {
+				bad++
+				if first == "" {
+					first = fmt.Sprintf("iteration=%d victim=%d %s", k, victim, strings.ReplaceAll(detail, " ", ";"))
+				}
+			}
+		}
+		status := "PASS"
+		if bad > 0 {
+			status = "FAIL"
+		}
+		fmt.Printf("%s start-vs-delivery/%s iterations=%d stuck=%d %s\n", status, p.name, n, bad, first)
+	}
 	reps := 6
 	if thorough {
 		reps = 40
@@ -212,8 +250,84 @@ func c09Child(seedStr, thoroughStr string) {
 	}
 }
 
+// gatedStart: a delivery to a party that has not been started is released at the same instant as its Start()
+// (spin gate, seeded skew); afterwards the run is finished sequentially. Whatever the interleaving, the party must end
+// up where a sequential delivery puts it and the run must complete. `victim` is started concurrently with the
+// delivery of the first message each other party sent it.
+func gatedStart(net *Net, victim int, seed int64, finish bool) (ok bool, detail string) {
+	r := rand.New(rand.NewSource(seed))
+	for i := range net.Nodes {
+		if i != victim {
+			net.Start(i)
+		}
+	}
+	// deliveries addressed to the victim that exist before it starts
+	var early []*Delivery
+	var rest []*Delivery
+	for _, d := range net.Pending {
+		if d.To == victim {
+			early = append(early, d)
+		} else {
+			rest = append(rest, d)
+		}
+	}
+	if len(early) == 0 {
+		return true, "nothing to deliver early"
+	}
+	net.Pending = rest
+	var gate int32
+	var wg sync.WaitGroup
+	spin := func(skew int) {
+		for atomic.LoadInt32(&gate) == 0 {
+		}
+		for k := 0; k < skew; k++ {
+			_ = k
+		}
+	}
+	nd := net.Nodes[victim]
+	wg.Add(1)
+	go func(skew int) {
+		defer wg.Done()
+		spin(skew)
+		if err := nd.Party.Start(); err != nil {
+			nd.Err = err
+		}
+	}(r.Intn(400))
+	for _, d := range early {
+		wg.Add(1)
+		go func(d *Delivery, skew int) {
+			defer wg.Done()
+			spin(skew)
+			_, _ = nd.Party.UpdateFromBytes(d.Wire, d.Msg.GetFrom(), d.Bcast)
+		}(d, r.Intn(400))
+	}
+	atomic.StoreInt32(&gate, 1)
+	wg.Wait()
+	nd.Started = true
+	net.collect(victim)
+	// a settled party that has not finished is waiting for somebody (the engine's fixpoint: when nothing is awaited the
+	// round advances); "waiting for nobody, not finished" is a lost wake-up. Every tenth run is also finished
+	// sequentially and must complete.
+	stuck := nd.Err == nil && len(nd.Ends) == 0 && len(waitingIdx(nd.Party)) == 0
+	ok = !stuck && len(net.Panics) == 0
+	if ok && finish {
+		net.Run(r, Strategy{Name: "fifo", Pick: pickFIFO}, 200000)
+		ok = len(net.Panics) == 0 && len(net.Pending) == 0
+		for _, x := range net.Nodes {
+			if len(x.Ends) != 1 || x.Err != nil {
+				ok = false
+			}
+		}
+	}
+	var st []string
+	for _, x := range net.Nodes {
+		st = append(st, fmt.Sprintf("%s:%s,ends=%d,waiting=%v", x.Name, roundOf(x.Party), len(x.Ends), waitingIdx(x.Party)))
+	}
+	return ok, strings.Join(st, " ")
+}
+
 func runC09(r *Run, rng *rand.Rand, thorough bool) {
-	r.Rule = "the harness is rebuilt with the Go race detector; every Start and every delivery of whole protocol runs is made from its own goroutine with seeded yields and sleeps, while other goroutines poll WaitingFor/String and (every second run) feed unparsable bytes; non-trivial = one completed concurrent run; direct assertions: no DATA RACE report, every party ends exactly once"
+	r.Rule = "the harness is rebuilt with the Go race detector; every Start and every delivery of whole protocol runs is made from its own goroutine with seeded yields and sleeps, while other goroutines poll WaitingFor/String and (every second run) feed unparsable bytes; plus gated runs in which the deliveries a party received before its Start() are released at the same instant as that Start() (spin gate, seeded skew, hundreds of fresh parties), after which the run must complete like the sequential one; non-trivial = one completed concurrent run; direct assertions: no DATA RACE report, every party ends exactly once"
 	self, _ := os.Executable()
 	raceBin := os.Getenv("VH_RACE")
 	if raceBin == "" {
